@@ -52,7 +52,8 @@ def _simple_regime(rng, cfg):
                                  u=rng.getrandbits(1), te=rng.getrandbits(1), v=int(rng.random() < 0.2), br=1, tre=1, ve=int(rng.random() < 0.3))}
     if cfg['memory_system_architecture'] == 'PMSA':
         regs = G.random_mpu(rng, cfg['number_of_mpu_regions'])
-        regs[0] = (1 | 31 << 1, 0, 3 << 8)
+        if regs:
+            regs[0] = (1 | 31 << 1, 0, 3 << 8)
         sys.update(G.mpu_sys(regs))
     return {'cpsr': cpsr, 'sys': sys, 'R': G.random_regfile(rng, cfg), 'spsr': G.random_spsrs(rng, cfg)}
 
